@@ -221,6 +221,8 @@ def materialize(case, ev):
     h = int(core_digest(case), 16) // 4
     spec["vars"] = [list(v[:3]) + (["int"] if (h + 3 * j) % 5 == 0 else ["bool"] if (h + 3 * j) % 5 == 1 and (v[1], v[2]) == (0, 1) else [])
                     for j, v in enumerate(case["vars"])]
+    if (h // 7) % 4 == 0:
+        spec["support"] = "plain"           # the support column labelled by a plain boolean variable
     poly = call(build.polyhedron, spec, what="constructing the polyhedron")
     rows = [(r[0], list(r[1:])) for r in case["m"]]
     index_ids = list(case["index"]) if case.get("index") else list(range(len(rows)))
